@@ -10,13 +10,17 @@ CASE_TYPE = "case"
 MISMATCH_FN = "mismatch"
 VIOLATES_FN = "violates"
 HARNESS_TIMEOUT = {"quick": 600, "thorough": 7200}
-RULE = ("case = history of 2-4 transactions over 5 private addresses x 4 storage keys; a transaction = sequence of vm.StateDB "
+RULE = ("driver (a): case = history of 2-4 transactions over 5 private addresses x 4 storage keys; a transaction = sequence of vm.StateDB "
         "calls (interpreter-shaped: access-list preparation, nonce bracket, nested call frames = Snapshot .. [RevertToSnapshot], "
         "transfers, SSTORE with refund bookkeeping, CREATE pattern, SELFDESTRUCT pattern, logs, reads of every getter) run on "
         "Nibiru's statedb.StateDB+keeper and on go-ethereum core/state; every 5th case is from the malformed stream (CreateAccount "
         "on live contracts, stale snapshot ids, refund underflow, sub-unibi amounts, suicide of anything, mid-tx PrepareAccessList). "
         "non-trivial = some transaction successfully reverts a snapshot taken before a state mutation AND a later transaction reads "
-        "or commits the affected accounts; distinct = distinct input")
+        "or commits the affected accounts; distinct = distinct input.  driver (b): case = generated EVM bytecode for up to 3 contracts "
+        "(SSTORE/SLOAD, LOG1, CALL/CALLCODE/DELEGATECALL/STATICCALL to contracts, EOAs and empty addresses with and without value "
+        "and gas limits, CREATE/CREATE2 with succeeding or reverting init code, SELFDESTRUCT, REVERT, INVALID, RETURN), a call or "
+        "creation message with random gas limit, value, access list, run through Keeper.ApplyEvmMsg and geth core.ApplyMessage; "
+        "non-trivial = executed and contains a nested call/create plus a state change or abort")
 ASSUMPTIONS = [
     "the geth interpreter (shared code on both sides) is not modelled; the theorem is about every protocol-obeying call sequence",
     "a contract code is identified with its hash (content-addressed store); code ids are code lengths in the harness",
@@ -94,7 +98,30 @@ def _obs(side):
 N_ADDRS, N_KEYS = 5, 4
 
 
+def _rows(rows, err=None):
+    out = []
+    for r in rows:
+        code = r.get("c", 0)
+        out.append("(%s, %s, %s, %s, %s)" % ("true" if r["e"] else "false", _z(r["b"]), _z(r["n"]),
+                                             ("(%d)" % code) if code < 0 else str(code), _zl(r["s"])))
+    return "[" + "; ".join(out) + "]"
+
+
+def _pobs(o):
+    return "(mk_pobs %s %s %s %s %s %s)" % ("true" if o["rejected"] else "false", _z(o["gas"]), _z(o["err"]),
+                                           _zl(o.get("ret") or []), _zl(o.get("logs") or []), _rows(o["state"]))
+
+
+def _is_prog(rec):
+    return rec.get("driver") == "prog"
+
+
 def to_coq_case(rec):
+    if _is_prog(rec):
+        ob = rec["obs"]
+        return "(mk_prog %s %s %s %s %s)%%Z" % (_z(ob["quot"]), _z(ob["refund"]),
+                                               ("(%d)" % ob["used_pre"]) if ob["used_pre"] < 0 else _z(ob["used_pre"]),
+                                               _pobs(ob["nib"]), _pobs(ob["geth"]))
     txs = "[" + "; ".join("[" + "; ".join(_op(o) for o in tx) + "]" for tx in rec["input"]) + "]"
     return "(mk_case [0;1;2;3;4] [0;1;2;3] %s %s %s)%%Z" % (txs, _obs(rec["obs"]["nib"]), _obs(rec["obs"]["geth"]))
 
@@ -117,13 +144,30 @@ def _reverts(rec):
     return res
 
 
+def _prog_kinds(rec):
+    return {s["k"] for b in rec["input"]["bodies"] for s in b}
+
+
 def nontrivial(rec):
+    if _is_prog(rec):
+        ks = _prog_kinds(rec)
+        ob = rec["obs"]["nib"]
+        # executed, and has a nested call/create together with a state change or an abort
+        return (not ob["rejected"]) and bool(ks & {"call", "dcall", "scall", "ccall", "create", "create2"}) and \
+            bool(ks & {"sstore", "selfdestruct", "revert", "invalid", "log"})
     rv = _reverts(rec)
     return bool(rv) and len(rec["input"]) >= 2
 
 
 def classify(rec):
-    ks = ["txs=%d" % len(rec["input"]), "stream:" + rec.get("stream", "?")]
+    if _is_prog(rec):
+        ob = rec["obs"]
+        ks = ["driver:prog", "prog-err:%d" % ob["nib"]["err"], "prog-rejected" if ob["nib"]["rejected"] else "prog-executed",
+              "prog-to:%s" % ("create" if rec["input"]["to"] < 0 else "call"),
+              "prog-refund:%s" % ("0" if ob["refund"] == 0 else ("capped" if ob["used_pre"] >= 0 and ob["refund"] > ob["used_pre"] // 5 else "full"))]
+        ks += ["stmt:" + k for k in sorted(_prog_kinds(rec))]
+        return ks
+    ks = ["driver:seq", "txs=%d" % len(rec["input"]), "stream:" + rec.get("stream", "?")]
     depth_max = 0
     for tx, ob in zip(rec["input"], rec["obs"]["nib"]):
         ks.append("len=%d0s" % (len(tx) // 10))
@@ -148,15 +192,41 @@ def describe(rec):
 
 
 def signature(rec):
+    if _is_prog(rec):
+        return {"kind": "program-divergence", "stmts": sorted(_prog_kinds(rec))}
     kinds = sorted({o["k"] for tx in rec["input"] for o in tx})
     return {"kind": "statedb-divergence", "ops": kinds}
 
 
 def input_size(inp):
+    if isinstance(inp, dict):
+        return sum(len(b) for b in inp["bodies"]) * 4 + len(inp.get("stor") or []) + len(inp.get("al") or []) + inp.get("value", 0)
     return sum(len(tx) for tx in inp) + len(inp)
 
 
+def _shrink_prog(inp):
+    out = []
+    for bi, b in enumerate(inp["bodies"]):
+        for i in range(len(b)):
+            nb = b[:i] + b[i + 1:]
+            if nb or bi > 0:
+                c = dict(inp)
+                c["bodies"] = inp["bodies"][:bi] + [nb] + inp["bodies"][bi + 1:]
+                out.append(c)
+    for key in ("stor", "al"):
+        lst = inp.get(key) or []
+        for i in range(len(lst)):
+            c = dict(inp)
+            c[key] = lst[:i] + lst[i + 1:]
+            out.append(c)
+    if inp.get("value"):
+        out.append(dict(inp, value=0))
+    return out
+
+
 def shrink_candidates(inp):
+    if isinstance(inp, dict):
+        return _shrink_prog(inp)
     out = []
     if len(inp) > 1:
         out.append(inp[:-1])
